@@ -1,7 +1,7 @@
 #!/bin/bash
 # usage: tools_confirm_mutant.sh <pid> <mN>   (uses the scratch worktree /tmp/wt/<pid> and /tmp/wt/<pid>-scratch/{mN.diff,demo_mN.py})
 # confirms: patch applies, pinned stable tests still pass with it, demo fails with it and passes without; then stores it under /verif/seeded/
-pid=$1; m=$2; wt=/tmp/wt/$pid; sc=/tmp/wt/$pid-scratch
+pid=$1; m=$2; wt=/tmp/wt/$pid; sc=/tmp/wt/$pid-scratch${3:-}
 cd $wt || exit 2; export PYTHONPATH=$wt
 git checkout -q -- . ; 
 if ! git apply --check $sc/$m.diff 2>/dev/null; then echo "$pid $m: PATCH DOES NOT APPLY"; exit 3; fi
